@@ -42,7 +42,8 @@ RULES = {
     'AAA-3': 10800, 'BBB+5:30': -19800, 'CCC4': -14400, '<+07>-7': 25200, 'DDD-1:15:20': 4520,
     'EEE2': -7200, 'GMT+3': -10800, 'FFF-10': 36000,
 }
-VALUES_FILE = ['/tmp/c18z/p3', ':/tmp/c18z/m7', '/tmp/c18z/p11', 'c18z/a', ':c18z/a', 'c18z/b', 'c18z/c', ':c18z/d',
+STEP = ('/tmp/c18z/step', [4380, 2000, 1, 0, 11640])   # +01:13 before 2000-01-01T00:00:00Z, +03:14 after
+VALUES_FILE = ['/tmp/c18z/step', ':/tmp/c18z/step', '/tmp/c18z/p3', ':/tmp/c18z/m7', '/tmp/c18z/p11', 'c18z/a', ':c18z/a', 'c18z/b', 'c18z/c', ':c18z/d',
                'c18z/e', 'c18z/../c18z/d', '/tmp/c18z/../c18z/p3']
 VALUES_SYS = ['Etc/GMT+5', ':Etc/GMT-3', 'Asia/Tokyo', 'Asia/Kolkata', 'EST', 'UTC', 'Etc/../Etc/GMT+9', '/etc/localtime',
               '/usr/share/zoneinfo/Etc/GMT-14', ':/usr/share/zoneinfo/Asia/Dubai']
@@ -59,7 +60,9 @@ def file_zone(path):
     """('absent',) | ('zone', off) | ('unreadable',) | ('varying',) for a path of the real machine."""
     if path in _zone_cache:
         return _zone_cache[path]
-    if path in CREATED:
+    if path == STEP[0]:
+        r = ('zone', STEP[1])
+    elif path in CREATED:
         r = ('zone', CREATED[path]) if CREATED[path] is not None else ('unreadable',)
     elif '/c18z/' in path and os.path.normpath(path) in CREATED and path != os.path.normpath(path):
         # a dotted spelling of a created file (the directories exist once the harness has run)
@@ -145,7 +148,9 @@ def usable(v):
     return all(file_zone(p)[0] != 'varying' for p in candidates(v))
 
 
-NDTS = [[2020, 100, 43200, 0], [1999, 365, 86399, 999999999], [2037, 1, 0, 0], [1971, 200, 3600, 1500000000], [2024, 366, 7, 5]]
+NDTS = [[2020, 100, 43200, 0], [1999, 365, 86399, 999999999], [2037, 1, 0, 0], [1971, 200, 3600, 1500000000], [2024, 366, 7, 5],
+        [2000, 1, 1800, 0], [2000, 1, 7200, 0], [2000, 1, 20000, 0], [1999, 365, 80000, 0], [2000, 1, 0, 0], [2000, 1, 4380, 0],
+        [2000, 1, 11640, 0], [2000, 1, 11639, 999999999], [2000, 1, 4381, 0]]
 
 
 def conv(rng):
